@@ -577,10 +577,21 @@ def grows(o, m, n):
 def judge(case, hl, ml, crashed):
     """compare one case; returns list of (signature, what, upto) where upto = number of ops needed to reproduce"""
     res = []
+    taint = {"desync": False, "unl": False}
+
+    def add(item):
+        """a history that has passed through the situation of a recorded defect may be corrupted by it: mark what is found later"""
+        sig, what, upto = item
+        if taint["desync"] and not sig.startswith("sense-desync"):
+            sig = "sense-desync:" + sig
+        elif taint["unl"] and not sig.startswith(("unloaded:", "sense-desync")):
+            sig = "unloaded:" + sig
+        res.append((sig, what, upto))
     ops = ["init"] + case["ops"]
     prev_bv = "none"
     prev = ({}, {})
     desync = False
+    grew_scaled = False  # an add call created rows/columns implicitly while the LP was persistently scaled (item 20)
     freed = False        # a row or column became free (both sides infinite) since the last optimize
     infvec = False       # a vector change with an infinite entry was applied to a persistently scaled LP
     intscale = case["set"]["persist"] == 0 and case["set"]["scaler"] != 0 and case["set"]["simplifier"] == 0
@@ -588,25 +599,25 @@ def judge(case, hl, ml, crashed):
         name = o.split()[0]
         if j >= len(hl):
             if crashed is not None:
-                unl = prev[1].get("ld") == "0" and prev[1].get("hb") == "1"
-                res.append(("%s:%s%s" % ("crash-unloaded-basis" if unl else "crash", name, (":scaler%d" % case["set"]["scaler"]) if (name == "OPT" and not unl) else ""), "the implementation crashed (rc=%s) in %s: %s" % (crashed[0], o[:120], crashed[1][-300:]), j))
+                unl = prev[1].get("ld") == "0"       # the real LP is a plain SPxLPBase outside the solver
+                add(("%s:%s%s" % ("crash-unloaded" if unl else "crash", name, (":scaler%d" % case["set"]["scaler"]) if (name == "OPT" and not unl) else ""), "the implementation crashed (rc=%s) in %s: %s" % (crashed[0], o[:120], crashed[1][-300:]), j))
             else:
-                res.append(("short-output", "harness printed fewer observations than operations", j))
+                add(("short-output", "harness printed fewer observations than operations", j))
             break
         if j >= len(ml):
-            res.append(("model-short-output", "model printed fewer observations than operations", j))
+            add(("model-short-output", "model printed fewer observations than operations", j))
             break
         hop, h1, h2, hflags = fields(hl[j])
         mop, m1, _, mflags = fields(ml[j])
         if "INVALID-OP" in mflags:
-            res.append(("generator-invalid-op", "generated operation outside the documented domain: %s" % o[:100], j))
+            add(("generator-invalid-op", "generated operation outside the documented domain: %s" % o[:100], j))
             break
         if "unmodelled" in mflags or "badop" in hflags:
-            res.append(("unmodelled-op", "operation not understood: %s" % o[:100], j))
+            add(("unmodelled-op", "operation not understood: %s" % o[:100], j))
             break
         if "EXC" in h1:
-            unl = prev[1].get("ld") == "0" and prev[1].get("hb") == "1"     # a basis kept in the arrays of SoPlexBase
-            res.append((("exception-unloaded-basis:" if (unl or prev_bv.split("(")[0] in ("dim", "cnt")) else "exception:") + name, "the implementation threw '%s' in %s" % (bytes.fromhex(h1["EXC"]).decode("latin-1"), o[:120]), j))
+            unl = prev[1].get("ld") == "0"
+            add((("exception-unloaded:" if (unl or prev_bv.split("(")[0] in ("dim", "cnt")) else "exception:") + name, "the implementation threw '%s' in %s" % (bytes.fromhex(h1["EXC"]).decode("latin-1"), o[:120]), j))
             break
         diff = []
         for key in CMPKEYS:
@@ -626,30 +637,38 @@ def judge(case, hl, ml, crashed):
                   and grows(o, int(prev[0].get("m", "0")), int(prev[0].get("n", "0")))):
                 # DESIGN.md section 9 item 20
                 sig = "implicit-growth-scaled:" + name
-            elif name == "OPT" and ("n" in diff or "m" in diff):
-                # optimize() itself changed the LP: vectors are lost when the LP is copied / loaded
-                sig = "vectors-lost-on-copy:OPT:ld%s" % prev[1].get("ld", "?")
+            elif name in ("OPT", "XU") and ("n" in diff or "m" in diff):
+                # optimize() (or the white-box copy) itself changed the LP: vectors are lost when the LP is copied / loaded
+                sig = "vectors-lost-on-copy:%s:ld%s" % (name, prev[1].get("ld", "?"))
+            elif grew_scaled:
+                sig = "implicit-growth-scaled:later:" + name
             else:
-                sig = "lp-mismatch:%s:sc%s" % (name, h2.get("sc", "?"))
-            res.append((sig, "after %s the accessors and the model disagree in %s\n impl : %s\n model: %s" % (
+                sig = "lp-mismatch:%s:sc%s:ld%s" % (name, h2.get("sc", "?"), prev[1].get("ld", "?"))
+            add((sig, "after %s the accessors and the model disagree in %s\n impl : %s\n model: %s" % (
                 o[:100], diff, " ".join("%s=%s" % (d, h1.get(d)) for d in diff), " ".join("%s=%s" % (d, m1.get(d)) for d in diff)), j))
             break
         # property oracles on the implementation's own observations
         if h1.get("sense") != h1.get("lsense") and not desync:
-            res.append(("sense-desync:" + name, "after %s the LP inside the solver has sense %s while OBJSENSE is %s" % (o[:60], h1.get("lsense"), h1.get("sense")), j))
+            add(("sense-desync:" + name, "after %s the LP inside the solver has sense %s while OBJSENSE is %s" % (o[:60], h1.get("lsense"), h1.get("sense")), j))
         desync = h1.get("sense") != h1.get("lsense")
+        if desync:
+            taint["desync"] = True
+        if h2.get("ld") == "0":
+            taint["unl"] = True
         bv = h2.get("bv", "none")
         if bv not in ("ok", "none") and prev_bv in ("ok", "none"):
             kind = bv.split("(")[0]
             # dim / cnt: wrong dimension or wrong number of basic variables (C06); undef / bnd / fix: a status that does not fit
             # the bounds of its variable (validity in the sense of C04)
             cls = "basis-invalid" if kind in ("dim", "cnt") else "basis-status"
-            res.append(("%s:%s:%s:ld%s%s" % (cls, kind, name, h2.get("ld"), ":intscale" if (intscale and name == "OPT") else ""), "after %s hasBasis() is true but the reported basis is invalid: %s" % (o[:100], bv), j))
+            if desync:
+                cls = "sense-desync:" + cls
+            add(("%s:%s:%s:ld%s%s" % (cls, kind, name, h2.get("ld"), ":intscale" if (intscale and name == "OPT") else ""), "after %s hasBasis() is true but the reported basis is invalid: %s" % (o[:100], bv), j))
         prev_bv = bv
         for key in ("vg", "cf", "rt"):
             if h2.get(key, "ok") != "ok":
                 kind = "".join(ch for ch in h2[key].split("(")[0] if not ch.isdigit() and ch != ",")
-                res.append(("getter-inconsistent:%s:%s:sc%s" % (key, kind, h2.get("sc")), "after %s two accessors of the same datum disagree (%s): %s" % (o[:100], key, h2[key][:300]), j))
+                add(("getter-inconsistent:%s:%s:sc%s" % (key, kind, h2.get("sc")), "after %s two accessors of the same datum disagree (%s): %s" % (o[:100], key, h2[key][:300]), j))
         if name == "OPT":
             a = int(h1.get("ost", "0"))
             oa = undy(h1.get("oobj", "0:0"))
@@ -667,13 +686,15 @@ def judge(case, hl, ml, crashed):
             if dg_ and dp_:
                 # neither a new solver with the same settings nor a plain one agrees: the modification history matters
                 pre = "resolve"
+                if a in (-8, -7, -6, -5):
+                    pre = "resolve-abort"       # the warm-started solve gave up (cycling / limits): no verdict rather than a wrong one
                 if desync:
                     pre = "sense-desync:" + pre
                 elif infvec:
                     pre = "scaled-vector-inf:" + pre
                 elif freed:
                     pre = "freed-nonbasic:" + pre
-                res.append(("%s-%s" % (pre, dg_[0]), "optimize after the history returns %s; a new solver with the same settings given the reported LP %s, "
+                add(("%s-%s" % (pre, dg_[0]), "optimize after the history returns %s; a new solver with the same settings given the reported LP %s, "
                             "a new solver without scaler and simplifier %s" % (mine, dg_[1], dp_[1]), j))
             elif dg_ or dp_ or df_:
                 # the in-place solve agrees with at least one solve from scratch: the answer depends on the settings, not on the history
@@ -683,8 +704,10 @@ def judge(case, hl, ml, crashed):
                 both = {ST.get(a, a)} | {kind.split("/")[-1]}
                 if kind.startswith("status") and both <= {"INFEASIBLE", "UNBOUNDED", "INForUNBD"}:
                     kind = "status:infeasible-or-unbounded"
-                res.append(("settings-dependent-%s" % kind, "optimize after the history returns %s, but new solvers given the reported LP disagree among "
+                add(("settings-dependent-%s" % kind, "optimize after the history returns %s, but new solvers given the reported LP disagree among "
                             "themselves: %s" % (mine, "; ".join("%s settings %s" % (tg, dd2[1]) for tg, dd2 in (("same", dg_), ("plain", dp_), ("default", df_)) if dd2)), j))
+        if prev[1].get("sc") == "1" and grows(o, int(prev[0].get("m", "0")), int(prev[0].get("n", "0"))):
+            grew_scaled = True
         if name in ("L1", "R1", "G1", "LV", "RV", "GV", "CR", "W1", "U1", "B1", "WV", "UV", "BV", "CC"):
             def nfree(d, a, b):
                 x, y = d.get(a, "").split(","), d.get(b, "").split(",")
